@@ -1540,6 +1540,12 @@ fn corpus(ctx: &mut Ctx) {
     let u = T::BUnion { sum: false, cs: vec![leaf(vec![0], 1), x], num_docs: 30_000 };
     let t5 = T::Inter { cs: vec![leaf(vec![0, 4600, 5000, 5010], 1), u], num_docs: 1_000_000 };
     check_direct(ctx, &t5, &[Call::Doc, Call::Adv, Call::Adv, Call::Adv], "corpus-nested-union-danger");
+    // finding 9 in the shape of the query `+l +((+x +y) z)` (docs 0:"l z" 1:"x y" 2,3:"y" 5000:"x y"
+    // 10000:"l z" 10005:"l x" 10010:"x y"): the real code also returns 10005
+    let xy = T::Inter { cs: vec![leaf(vec![1, 5000, 10005, 10010], 1), leaf(vec![1, 2, 3, 5000, 10010], 1)], num_docs: u32::MAX };
+    let u9 = T::BUnion { sum: true, cs: vec![xy, leaf(vec![0, 10000], 1)], num_docs: 10_011 };
+    let t9 = T::Inter { cs: vec![leaf(vec![0, 10000, 10005], 1), u9], num_docs: u32::MAX };
+    check_direct(ctx, &t9, &[Call::Doc, Call::Adv, Call::Adv, Call::Adv], "corpus-union-child-danger");
 }
 
 pub fn replay(ctx: &mut Ctx, case: &serde_json::Value) {
